@@ -675,7 +675,11 @@ pub fn run_property(prop: &Property, thorough: bool, seed: u64, rep: &mut Report
             }
         };
         corpus_n += 1;
+        // visible to the monitor: a corpus case that hangs or kills the process is isolated like any other
+        let cslot = Slot::open(&env.slot_dir, 0);
+        cslot.publish(prop.parts.iter().position(|p| p.name == rf.part).unwrap_or(0), rf.exh, &rf.data);
         let (v, d) = replay_case(prop, &rf, thorough);
+        cslot.idle();
         if !rf.case.is_empty() && !d.is_empty() && format!("{:016x}", fnv1a(&d)) != rf.case {
             rep.line(&format!("harness: corpus file {} no longer decodes to its recorded case (generator changed) — regenerate it", f.display()));
             return 2;
@@ -708,6 +712,7 @@ pub fn run_property(prop: &Property, thorough: bool, seed: u64, rep: &mut Report
     let mut per_part = Vec::new();
     let mut all_exhaustive = true;
     let mut any_part = false;
+    let mut health_fail = false;
     for (pi, part) in prop.parts.iter().enumerate() {
         let b = budget_of(part, thorough);
         let nthreads = std::env::var("VERIF_THREADS").ok().and_then(|s| s.parse().ok()).unwrap_or(16usize);
@@ -792,8 +797,8 @@ pub fn run_property(prop: &Property, thorough: bool, seed: u64, rep: &mut Report
                 "harness: generator health: part {} has {}% non-trivial cases (< {}%)",
                 part.name, pct, part.min_nontrivial_pct
             ));
-            write_evidence(prop, thorough, seed, &total, &per_part, corpus_n, violations, t0, false, &known_lines);
-            return 2;
+            // keep going: a violation found by another part must still be reported (exit 1 wins over exit 2)
+            health_fail = true;
         }
         // distinct hashes are per part: salt them
         let salt = hash_str(part.name);
@@ -807,7 +812,7 @@ pub fn run_property(prop: &Property, thorough: bool, seed: u64, rep: &mut Report
         rep.line(&format!("VIOLATION property={} replay={}", prop.id, p));
         rep.line(&format!("  part={} sig={} {}", f.part, f.sig, first_line(&f.detail)));
     }
-    let exhaustive = any_part && all_exhaustive && failures.is_empty();
+    let exhaustive = any_part && all_exhaustive && failures.is_empty() && !health_fail;
     write_evidence(prop, thorough, seed, &total, &per_part, corpus_n, violations, t0, exhaustive, &known_lines);
     rep.line(&format!(
         "{} {} seed={} evaluations={} judged={} distinct_nontrivial={} corpus_replayed={} violations={} known_findings={} wall={:.1}s",
@@ -824,6 +829,8 @@ pub fn run_property(prop: &Property, thorough: bool, seed: u64, rep: &mut Report
     ));
     if violations > 0 {
         1
+    } else if health_fail {
+        2
     } else {
         0
     }
